@@ -149,6 +149,19 @@ func Threads(n int, body func() uint32, label string) {
 	}
 }
 
+// ThreadsIdx is Threads with the thread's index handed to the body, for threads that do
+// different things.
+func ThreadsIdx(n int, body func(i int) uint32, label string) {
+	seen := map[uint32]bool{}
+	for i := 0; i < n; i++ {
+		v := body(i)
+		if seen[v] {
+			panic(assertFail{label})
+		}
+		seen[v] = true
+	}
+}
+
 // Note records informational context for findings (not part of the finding key).
 func Note(k, v string) {}
 
